@@ -4,9 +4,10 @@ pub fn round(&self) -> Self
     requires
         B >= 2,
         !(self.repr.significand.v() == 0 && self.repr.exponent != 0),          // finite (documented panic otherwise)
-        // machine ranges (memory limits; overflow of isize in `exponent + digits` is outside this contract)
-        -0x1000_0000_0000_0000 < self.repr.exponent,
-        ndigits(B as int, self.repr.significand.v()) < 0x1000_0000_0000_0000,
+        // machine ranges: `-exponent` fits isize (overflow of isize is outside this contract), fewer than 2^56 digits
+        // (memory limit; `digits_ub() as isize` does not wrap)
+        isize::MIN < self.repr.exponent,
+        ndigits(B as int, self.repr.significand.v()) < 0x100_0000_0000_0000,
     ensures
         // C10: "the integer nearest to self; if there are two integers equally close, the one farther from zero": the
         // result has the integer value t with 2 * |t * B^(-e) - s| <= B^(-e), and in case of equality |t * B^(-e)| > |s|
@@ -46,6 +47,7 @@ pub fn round(&self) -> Self
         /*@ proof {
             lemma_ro_round_parts(Mode::HalfAway, s, ipow(b, precision as nat), hv, lv, rounding);
             assert(fl_round_int(Mode::HalfAway, b, s, e, hv + adj_int(rounding)));
+            lemma_split_exp_room(b, s, precision as nat, hv, lv, adj_int(rounding));   // room for Repr::new (resource limit, C16)
         } @*/
         let context = Context::new(self.context.precision.saturating_sub(precision));
         FBig::new(Repr::new(hi + rounding, 0), context)
